@@ -264,6 +264,12 @@ def judge(cfg, recs, nodist, mon, via="fake"):
                           observed=p["next"], expected=lists[p["e_next"]], init_epoch=p["e0"], e_next=p["e_next"])
             mon.check(p["epoch_after"] == p["e_next"] + 1, "epoch-attr", rank=r, observed=p["epoch_after"],
                       expected=p["e_next"] + 1)
+        if "exact" in rec:
+            x = rec["exact"]
+            for j, pulled in enumerate(x["pulls"]):
+                if x["e0"] + j < E and pulled:
+                    mon.check(pulled == lists[x["e0"] + j], "exactly-len-indices-pulled", rank=r, epoch=x["e0"] + j,
+                              observed=pulled, expected=lists[x["e0"] + j], init_epoch=x["e0"])
         if "interleave" in rec:
             il = rec["interleave"]
             if il["e0"] < E:
